@@ -1,4 +1,5 @@
 import BoltonsVerif.C07.Proofs
+import BoltonsVerif.C07.NavTie
 /-
 C07 — property theorems: `URL.navigate` = RFC 3986 section 5.2, normalised result.
 
@@ -821,5 +822,152 @@ theorem navigate_result_normal (b dest : URL) (h : ¬ (dest.scheme ≠ [] ∧ de
   unfold URL.navigate URL.navigateWith
   rw [if_neg h]
   exact normalize_idempotent _ true
+
+/-! ### SOURCE TIE of `URL.navigate`'s decision logic (round 3c; see NavTie.lean) -/
+
+/-- **the values the SOURCE of `navigate` computes are the model's**: the translated normal form of the method,
+    applied to the components of two URL objects, returns the components of `dest` itself for a replacing absolute
+    reference and otherwise exactly the nine values (`modelCore`) the model's `navigateWith true` hands to
+    `from_parts` / `ret.family` - for ALL object states.  The proof only case-splits on the atomic facts the method
+    can look at (reference replacing? path empty / rooted? base host? base directory rooted? reference parameters /
+    query marker?) and lets `simp` evaluate both sides, so re-ordered or re-nested branches survive. -/
+theorem src_navigate_core_eq_model (self dest : URL) :
+    srcCore self dest = if dest.scheme ≠ [] ∧ dest.host ≠ [] then coreOf dest else modelCore self dest := by
+  obtain ⟨ds, dsep, du, dpw, dh, dv6, dport, dparts, dq, dhq, df⟩ := dest
+  obtain ⟨ss, ssep, su, spw, sh, sv6, sport, sparts, sq, shq, sf⟩ := self
+  simp only [srcCore, coreOf, NavSrc.navigate_core, NavSrc.navigate_core.body, modelCore, URL.pathText, orStr,
+    nav_slice_take_one_chars, nav_slice_take_one_strs, nav_slice_dropLast_strs, take_one_eq_slash, take_one_ne_root,
+    take_one_eq_root, cast_ite_port, fam_ite]
+  by_cases habs : ds ≠ [] ∧ dh ≠ []
+  · simp [habs.1, habs.2]
+  · have habs' : ¬ (¬ ds = [] ∧ ¬ dh = []) := habs
+    by_cases hp : joinSlash dparts = []
+    · by_cases hq : dq = [] <;> cases dhq <;> simp [habs', hp, hq]
+    · by_cases hsl : (joinSlash dparts).head? = some '/'
+      · simp [habs', hp, hsl]
+      · by_cases hh : sh = [] <;> by_cases hr : sparts.dropLast.head? = some [] <;>
+          simp [habs', hp, hsl, hh, hr]
+
+/-- ... hence `from_parts(**values)`, `ret.family = …`, `ret.normalize()` applied to what the source computes IS the
+    model's navigate, for every reference that does not replace the base -/
+theorem src_navigate_eq_model (self dest : URL) (h : ¬ (dest.scheme ≠ [] ∧ dest.host ≠ [])) :
+    ofCore (srcCore self dest) = URL.navigateWith true self dest := by
+  rw [src_navigate_core_eq_model, if_neg h, ofCore_modelCore self dest h]
+
+/-- ... and a reference with its own scheme and host is handed back as it is ("replaces the base entirely") -/
+theorem src_navigate_replacing (self dest : URL) (hs : dest.scheme ≠ []) (hh : dest.host ≠ []) :
+    srcCore self dest = coreOf dest := by
+  rw [src_navigate_core_eq_model, if_pos ⟨hs, hh⟩]
+
+/-- **the RFC statement about what the source computes**: for a base with a host and any reference without scheme and
+    authority, `from_parts` + `normalize()` of the values computed by the translated source renders to the RFC 3986
+    5.2 target -/
+theorem src_navigate_eq_rfc (b : URL) (r : Ref) (hb : AbsBase b) (hr : RelRef r)
+    (hdf : r.path ≠ [] ∨ DotFree b.parts) (hcq : CanonQ r.query) :
+    (ofCore (srcCore b (URL.ofRelRef r))).toRef.canon = (resolve b.toRef r).canon := by
+  rw [src_navigate_eq_model b (URL.ofRelRef r) (by simp [URL.ofRelRef, URL.ofComponents])]
+  exact navigate_eq_rfc_repaired b r hb hr hdf hcq
+
+/-- non-vacuity: the translated source on `http://u@a:81/b/c/d;p?q` + `.././/g/.?y#` -/
+example : (ofCore (srcCore exBase (URL.ofRelRef exRef))).toText = "http://u@a:81/b//g/?y".toList := by decide
+example : srcCore exBase exAbs = coreOf exAbs := src_navigate_replacing _ _ (by decide) (by decide)
+
+/-! ### chained navigation from a base without a host (round 3c) -/
+
+theorem process_ne_nil (stack segs : List Str) (h : segs ≠ []) : process stack segs ≠ [] := by
+  rcases List.eq_nil_or_concat segs with hs | ⟨init, x, hs⟩
+  · exact absurd hs h
+  · subst hs
+    unfold process
+    simp only [List.concat_eq_append, List.foldl_append, List.foldl, List.getLast?_append, List.getLast?_singleton]
+    by_cases h1 : x = dot
+    · simp [h1]
+    · by_cases h2 : x = dotdot
+      · simp [h2]
+      · simp [h1, h2, pstep]
+
+/-- the class of hostless bases is closed under navigation, and the result is dot-free -/
+theorem navigateWith_closed_hostless (honour : Bool) (b : URL) (r : Ref) (hb : HostlessBase b) :
+    HostlessBase (URL.navigateWith honour b (URL.ofRelRef r)) ∧
+      DotFree (URL.navigateWith honour b (URL.ofRelRef r)).parts := by
+  obtain ⟨s0, segs0, hsegs⟩ := hb.rooted
+  have hlh : lower b.host = b.host := by rw [hb.host_nil]; rfl
+  rw [navigate_rel_rooted honour b r (s0 :: segs0) hsegs (Or.inr (by simp)) hb.lowerScheme hlh]
+  have hparts : (relResult honour b r).parts = [] :: process [] (relSegs (s0 :: segs0) r) := by
+    rw [relResult_parts, relParts_eq b r (s0 :: segs0) hsegs, resolvePathParts_root]
+  have hne : relSegs (s0 :: segs0) r ≠ [] := by
+    unfold relSegs
+    split
+    · simp
+    · split
+      · exact splitSlash_ne_nil _
+      · intro h
+        have := splitSlash_ne_nil r.path
+        simp at h
+        exact this h.2
+  refine ⟨⟨hb.host_nil, ?_, ?_, hb.lowerScheme⟩, ?_⟩
+  · rw [hparts]
+    cases hpr : process [] (relSegs (s0 :: segs0) r) with
+    | nil => exact absurd hpr (process_ne_nil _ _ hne)
+    | cons a t => exact ⟨a, t, rfl⟩
+  · intro s hs
+    rw [relResult_parts] at hs
+    rcases resolvePathParts_mem _ s hs with h | h
+    · rw [relParts_eq b r (s0 :: segs0) hsegs] at h
+      simp only [List.mem_cons] at h
+      rcases h with rfl | h
+      · simp [NoSlash]
+      · exact relSegs_noSlash (s0 :: segs0) r
+          (fun x hx => hb.noSlash x (by rw [hsegs]; exact List.mem_cons_of_mem _ hx)) s h
+    · subst h; simp [NoSlash]
+  · rw [relResult_parts]; exact resolvePathParts_dotFree _
+
+/-- "the URL object `n` stands for the RFC reference `T`" for hostless URLs: scheme and path exactly, query up to the
+    empty marker (the authority - undefined or empty - is not represented by the object) -/
+def HostlessSim (n : URL) (T : Ref) : Prop :=
+  optOfStr n.scheme = T.scheme ∧ n.pathText = T.path ∧ dropEmpty (optOfStr (queryText n.query)) = dropEmpty T.query
+
+instance (n : URL) (T : Ref) : Decidable (HostlessSim n T) := by unfold HostlessSim; infer_instance
+
+/-- **chained navigation from a hostless base = resolving step by step** (RFC 5.2 applied to each reference in turn),
+    either version of the code; the authority of the RFC target stays the base's (undefined or empty) throughout -/
+theorem chainedWith_eq_rfc_hostless (honour : Bool) (rs : List Ref) : ∀ (b : URL) (B : Ref), HostlessBase b →
+    DotFree b.parts → HostlessSim b B →
+    (∀ r ∈ rs, RelRef r ∧ (honour = true ∨ r.query ≠ some []) ∧ CanonQ r.query) →
+    HostlessSim (URL.navigateAllWith honour b (rs.map URL.ofRelRef)) (resolveAll B rs) ∧
+      (resolveAll B rs).authority = B.authority ∧
+      (URL.navigateAllWith honour b (rs.map URL.ofRelRef)).host = [] := by
+  induction rs with
+  | nil => intro b B hb _ hs _; exact ⟨by simpa [URL.navigateAllWith, resolveAll] using hs, rfl, hb.host_nil⟩
+  | cons r rest ih =>
+    intro b B hb hd hs hrs
+    have hr := hrs r (by simp)
+    -- the base as the RFC sees it, with exactly the object's query text
+    let B' : Ref := ⟨optOfStr b.scheme, B.authority, b.pathText, optOfStr (queryText b.query), B.fragment⟩
+    have hB' : RefOfBase b B' := ⟨rfl, rfl, rfl⟩
+    have hcan : B'.canon = B.canon := by
+      simp only [Ref.canon, Ref.mk.injEq, B']
+      exact ⟨hs.1, trivial, hs.2.1, hs.2.2, trivial⟩
+    have hcong := resolve_congr B' B r hr.1 hcan
+    have step := navigateWith_eq_rfc_hostless honour b B' r hb hB' hr.1 (Or.inr hd) hr.2.2
+      (hr.2.1.elim Or.inl (fun h => Or.inr (fun h' => h h'.2.1)))
+    obtain ⟨h1, h2, _, h4, h5, _⟩ := step
+    have hsim : HostlessSim (URL.navigateWith honour b (URL.ofRelRef r)) (resolve B r) := by
+      refine ⟨?_, ?_, ?_⟩
+      · rw [h1]; simpa [Ref.canon] using congrArg Ref.scheme hcong
+      · rw [h4]; simpa [Ref.canon] using congrArg Ref.path hcong
+      · rw [h5]; simpa [Ref.canon] using congrArg Ref.query hcong
+    have hc := navigateWith_closed_hostless honour b r hb
+    have := ih (URL.navigateWith honour b (URL.ofRelRef r)) (resolve B r) hc.1 hc.2 hsim
+      (fun r' hr' => hrs r' (by simp [hr']))
+    refine ⟨by simpa [URL.navigateAllWith, resolveAll] using this.1, ?_, by simpa [URL.navigateAllWith] using this.2.2⟩
+    have ha : (resolve B r).authority = B.authority := resolve_rel_authority _ _ hr.1
+    simpa [resolveAll, ha] using this.2.1
+
+example : HostlessBase exBaseFile ∧ DotFree exBaseFile.parts ∧
+    HostlessSim exBaseFile ⟨some "file".toList, some [], "/a/b/c".toList, some "q".toList, none⟩ := by
+  refine ⟨⟨rfl, ⟨_, _, rfl⟩, by decide, by decide⟩, by decide, by decide⟩
+example : (URL.navigateAllWith true exBaseFile ([exRef, ⟨none, none, [], some [], none⟩, ⟨none, none, "../../../x".toList, none, none⟩].map
+    URL.ofRelRef)).pathText = "/x".toList := by decide
 
 end C07
